@@ -50,6 +50,9 @@ type Schema struct {
 	// .proto files, another proto package): its types need no qualifier and no import, and whatever the generator emits
 	// once per file ends up twice in one package
 	SamePkg bool
+	// Special: the Go field names of the schema that protoc-gen-gogo gives a trailing underscore and protogen does not
+	// (GogoSpecialNames): a gogo variant must pass every one of them as `specialname=` (Variant.Takes)
+	Special []string
 }
 
 // DepName is the name of the schema's imported file.
